@@ -119,4 +119,150 @@ example :
       = some (cs!"query Home {  me {    id,  },}") :=
   jsValue_embed _ (by decide)
 
+/-! ### the escaping embedding (`escapeJs`, `queryTextFile`) -/
+
+/-- any text the printer can produce: no raw line feed except as the second half of a backslash+LF
+continuation, no carriage return, only BMP characters that are not surrogates — apostrophes and
+backslashes ARE allowed now -/
+def embeddable : Str → Bool
+  | [] => true
+  | 92 :: 10 :: rest => embeddable rest
+  | c :: rest => c != 10 && c != 13 && (c < 0xD800 || (0xE000 ≤ c && c < 0x10000)) && embeddable rest
+
+theorem embeddable_cons (c : Nat) (rest : Str) (hne : ∀ rest', c = 92 → rest = 10 :: rest' → False) :
+    embeddable (c :: rest)
+      = (c != 10 && c != 13 && (c < 0xD800 || (0xE000 ≤ c && c < 0x10000)) && embeddable rest) := by
+  rw [embeddable]; exact hne
+
+theorem dropContinuations_cons (c : Nat) (rest : Str) (hne : ∀ rest', c = 92 → rest = 10 :: rest' → False) :
+    dropContinuations (c :: rest) = c :: dropContinuations rest := by
+  rw [dropContinuations]; exact hne
+
+theorem sqBody_escapeJs (t : Str) (h : embeddable t = true) (r : Str) :
+    ∀ (fuel : Nat) (acc : List Nat), (escapeJs t).length + 1 ≤ fuel →
+      sqBody fuel (escapeJs t ++ 39 :: r) acc = some (acc.reverse ++ dropContinuations t, r) := by
+  fun_induction escapeJs t with
+  | case1 =>
+    intro fuel acc hf
+    cases fuel with
+    | zero => omega
+    | succ f => simp [sqBody, dropContinuations]
+  | case2 rest ih =>
+    intro fuel acc hf
+    have h' : embeddable rest = true := by simpa [embeddable] using h
+    cases fuel with
+    | zero => omega
+    | succ f =>
+      have hf' : (escapeJs rest).length + 1 ≤ f := by simp at hf; omega
+      simp [sqBody, dropContinuations, ih h' f acc hf']
+  | case3 rest hne ih =>
+    intro fuel acc hf
+    have hne' : ∀ rest', 92 = 92 → rest = 10 :: rest' → False := fun rest' _ => hne rest'
+    rw [embeddable_cons 92 rest hne'] at h
+    simp only [Bool.and_eq_true] at h
+    cases fuel with
+    | zero => omega
+    | succ f =>
+      have hf' : (escapeJs rest).length + 1 ≤ f := by simp at hf; omega
+      simp [sqBody, isDecDigit, utf16Units, dropContinuations_cons 92 rest hne', ih h.2 f (92 :: acc) hf']
+  | case4 rest ih =>
+    intro fuel acc hf
+    have hne' : ∀ rest', 39 = 92 → rest = 10 :: rest' → False := fun _ hc => absurd hc (by decide)
+    rw [embeddable_cons 39 rest hne'] at h
+    simp only [Bool.and_eq_true] at h
+    cases fuel with
+    | zero => omega
+    | succ f =>
+      have hf' : (escapeJs rest).length + 1 ≤ f := by simp at hf; omega
+      simp [sqBody, isDecDigit, utf16Units, dropContinuations_cons 39 rest hne', ih h.2 f (39 :: acc) hf']
+  | case5 c rest hne h92 h39 ih =>
+    intro fuel acc hf
+    rw [embeddable_cons c rest hne] at h
+    simp only [Bool.and_eq_true, bne_iff_ne, ne_eq] at h
+    obtain ⟨⟨⟨h10, h13⟩, hbmp⟩, hrest⟩ := h
+    have h92' : ¬ c = 92 := h92
+    have h39' : ¬ c = 39 := h39
+    cases fuel with
+    | zero => omega
+    | succ f =>
+      have hf' : (escapeJs rest).length + 1 ≤ f := by simp at hf; omega
+      have hlt : c < 0x10000 := by
+        simp at hbmp; omega
+      simp [sqBody, h39', h92', h10, h13, utf16Units, hlt, dropContinuations_cons c rest hne,
+        ih hrest f (c :: acc) hf']
+
+theorem noSurrogate_dropContinuations' (t : Str) (h : embeddable t = true) :
+    noSurrogate (dropContinuations t) := by
+  fun_induction embeddable t with
+  | case1 => intro x hx; simp [dropContinuations] at hx
+  | case2 rest ih => simpa [dropContinuations] using ih h
+  | case3 c rest hne ih =>
+    simp only [Bool.and_eq_true, bne_iff_ne, ne_eq] at h
+    obtain ⟨⟨⟨h10, h13⟩, hbmp⟩, hrest⟩ := h
+    rw [dropContinuations_cons c rest hne]
+    intro x hx
+    rcases List.mem_cons.mp hx with rfl | hx
+    · simp at hbmp; omega
+    · exact ih hrest x hx
+
+/-- the JavaScript value of the query_text.ts the (repaired) compiler writes for the operation text
+`t` is `t` without the printer's line continuations -/
+theorem jsValue_queryTextFile (t : Str) (h : embeddable t = true) :
+    jsValue (queryTextFile t) = some (IsoVerif.Core.dropContinuations t) := by
+  have hskip : ∀ n, skipTrivia n (exportDefault ++ escapeJs t ++ cs!"';")
+      = exportDefault ++ (escapeJs t ++ cs!"';") := by
+    intro n
+    rw [List.append_assoc, exportDefault_eq, List.cons_append]
+    exact skipTrivia_of_plain n 101 _ (by decide) (by decide)
+  have hbody := sqBody_escapeJs t h [59] ((escapeJs t ++ cs!"';").length + 1) [] (by simp)
+  have h59 : ∀ n, skipTrivia n [59] = [59] := fun n => skipTrivia_of_plain n 59 [] (by decide) (by decide)
+  unfold jsValue queryTextFile
+  simp only [hskip, exportDefault_isPrefixOf, exportDefault_drop, if_true]
+  simp only [hbody, List.reverse_nil, List.nil_append, h59]
+  simp [skipTrivia, unitsToScalars_noSurrogate _ (noSurrogate_dropContinuations' t h)]
+
+/-- text without apostrophes and stray backslashes is embedded verbatim -/
+theorem escapeJs_of_safeEmbedded (t : Str) (h : safeEmbedded t = true) : escapeJs t = t := by
+  fun_induction safeEmbedded t with
+  | case1 => rfl
+  | case2 rest ih => simp [escapeJs, ih h]
+  | case3 c rest hne ih =>
+    simp only [Bool.and_eq_true, bne_iff_ne, ne_eq] at h
+    obtain ⟨⟨⟨⟨⟨h39, h92⟩, h10⟩, h13⟩, hbmp⟩, hrest⟩ := h
+    rw [escapeJs]
+    · rw [ih hrest]
+    · intro rest' hc; exact absurd hc h92
+    · intro hc; exact absurd hc h92
+    · intro hc; exact absurd hc h39
+
+theorem embeddable_of_safeEmbedded (t : Str) (h : safeEmbedded t = true) : embeddable t = true := by
+  fun_induction safeEmbedded t with
+  | case1 => rfl
+  | case2 rest ih => simpa [embeddable] using ih h
+  | case3 c rest hne ih =>
+    rw [embeddable_cons c rest hne]
+    simp only [Bool.and_eq_true] at h ⊢
+    exact ⟨⟨⟨h.1.1.1.2, h.1.1.2⟩, h.1.2⟩, ih h.2⟩
+
+/-- `jsValue_embed` as a corollary of `jsValue_queryTextFile` -/
+theorem jsValue_embed' (t : Str) (h : safeEmbedded t = true) :
+    jsValue (exportDefault ++ t ++ cs!"';") = some (IsoVerif.Core.dropContinuations t) := by
+  have := jsValue_queryTextFile t (embeddable_of_safeEmbedded t h)
+  rwa [queryTextFile, escapeJs_of_safeEmbedded t h] at this
+
+example :
+    jsValue (queryTextFile cs!"query Q {\\\n  user(name: \"it's\") {\\\n    id,\\\n  },\\\n}")
+      = some cs!"query Q {  user(name: \"it's\") {    id,  },}" :=
+  jsValue_queryTextFile _ (by decide)
+
+/-- a backslash in a string argument (`"a\\b"` in GraphQL), followed by a continuation -/
+example :
+    jsValue (queryTextFile cs!"query Q {\\\n  user(name: \"a\\\\b\\\\\") {\\\n    id,\\\n  },\\\n}")
+      = some cs!"query Q {  user(name: \"a\\\\b\\\\\") {    id,  },}" :=
+  jsValue_queryTextFile _ (by decide)
+
+/-- a text that ends a line with a backslash that is itself text: `\` `\`+LF -/
+example : jsValue (queryTextFile [97, 92, 92, 10, 98]) = some [97, 92, 98] :=
+  jsValue_queryTextFile _ (by decide)
+
 end IsoVerif.Ops
